@@ -196,3 +196,26 @@ package ctlog
 //@   decreases "for" len(data)
 //@   ensures [C13] sound: ret == nil ==> fileContent(f) == old(data)
 //@   ensures [C03,C13] complete: (fileContent(f) == old(data) && !gReadError) ==> ret == nil
+
+//@ func ctlog.(*LocalBackend).Upload props C13
+//@   requires s != nil
+//@   init gOpenFailed == emptyset("set[string]") && !gReadError
+//@   call durable.WriteFile requires [C13] confined: c_name == pjoin(s.dir, localized(key)) && c_data == data
+//@   call durable.WriteFile requires [C13] never-over-existing-immutable: (opts != nil && opts.Immutable) ==> gOpenFailed[path]
+//@   call durable.MkdirAll requires [C13] confined-dir: c_path == dirOf(pjoin(s.dir, localized(key)))
+//@   call os.Open requires [C13] confined-open: c_name == pjoin(s.dir, localized(key))
+//@   call ctlog.compareFile requires [C13] compares-existing-with-new: c_data == data && gFilePos[c_f] == 0 && gOpenPath[c_f] == path
+//@   returns? [C13] existing-immutable-accepted-only-if-equal: (ret == nil && opts != nil && opts.Immutable) ==> fileContent(f__1) == data
+
+//@ func ctlog.(*LocalBackend).Fetch props C13
+//@   requires s != nil
+//@   call os.ReadFile requires [C13] confined: c_name == pjoin(s.dir, localized(key))
+
+//@ func ctlog.(*LocalBackend).Discard props C13
+//@   requires s != nil
+//@   call os.Open requires [C13] confined-open: c_name == pjoin(s.dir, localized(key))
+//@   call os.Remove requires [C13] confined-remove: c_name == pjoin(s.dir, localized(key))
+
+//@ census [C13] no-direct-file-writes: callers os.WriteFile within none in ctlog durable
+//@ census [C13] no-os-create: callers os.Create within none in ctlog durable
+//@ census [C13] rename-sites: callers os.Rename within durable.WriteFile in ctlog durable
